@@ -223,6 +223,16 @@ type AllegraTransactionBody struct {
 	TxValidityIntervalStart uint64                             `cbor:"8,keyasint,omitempty"`
 }
 
+// MarshalCBOR returns the stored CBOR of a decoded AllegraTransactionBody so that
+// re-serialising it reproduces the wire bytes; an object built in memory is
+// encoded from its fields
+func (x *AllegraTransactionBody) MarshalCBOR() ([]byte, error) {
+	if x.Cbor() != nil {
+		return x.Cbor(), nil
+	}
+	return cbor.EncodeGeneric(x)
+}
+
 func (b *AllegraTransactionBody) UnmarshalCBOR(cborData []byte) error {
 	type tAllegraTransactionBody AllegraTransactionBody
 	var tmp tAllegraTransactionBody
